@@ -4,6 +4,7 @@ import Gpc.Proofs.FloatPlan
 import Gpc.Proofs.FloatSpecWF
 import Gpc.Proofs.FmtCount
 import Gpc.Proofs.FmtArgs
+import Gpc.Proofs.FloatValue
 /-!
 # C09 — formatted output equals the C standard's
 
@@ -228,6 +229,52 @@ theorem formatter_meets_spec_all (fmt : Bytes) (args : List Arg) (out dest : Byt
   split
   · rename_i hi; exact a.2 i (by omega) hi
   · rename_i hi; symm; exact List.getElem?_eq_none (by omega)
+
+/-- **C09, `%f` prints the correctly rounded decimal expansion.**  For a finite value `m·2^e` and precision `prec`,
+let `N` be the number spelled by the digits of the specification's text with the point removed.  Then exactly `prec`
+digits follow the point (when `prec > 0`) and `N` is `m·2^e·10^prec` rounded to the nearest integer, ties to even:
+with `num/den` the exact scaled value, `|N·den − num| ≤ den/2`, and `N` is even on a tie.  (By `float_text` the
+model of the library's formatter writes this same text.) -/
+theorem fixed_correctly_rounded (m : Nat) (e : Int) (prec : Nat) (alt : Bool) :
+    let N := valueOf ((fixedText m e prec alt).filter (· ≠ 46))
+    let num := m * (if e ≥ 0 then 2 ^ e.toNat else 1) * 10 ^ prec
+    let den := if e ≥ 0 then 1 else 2 ^ (-e).toNat
+    (0 < prec → ((fixedText m e prec alt).dropWhile (· ≠ 46)).length = prec + 1) ∧
+    2 * (N * den) ≤ 2 * num + den ∧ 2 * num ≤ 2 * (N * den) + den ∧
+    ((2 * (N * den) = 2 * num + den ∨ 2 * num = 2 * (N * den) + den) → N % 2 = 0) := by
+  intro N num den
+  have hN : N = roundDiv num den := by
+    show valueOf _ = _
+    rw [(fixedText_value m e prec alt).1, scaled_nonneg_prec]
+  have hden : 0 < den := by
+    show 0 < (if e ≥ 0 then 1 else 2 ^ (-e).toNat)
+    split
+    · omega
+    · exact Nat.pow_pos (by omega)
+  rw [hN]
+  exact ⟨(fixedText_value m e prec alt).2, roundDiv_nearest_even num den hden⟩
+
+/-- **C09, `%e`: the significant digits are the value scaled to the printed exponent, correctly rounded.**  For a
+non-zero finite value with printed decimal exponent `x`, the digit string spells `m·2^e·10^(prec−x)` rounded to the
+nearest integer, ties to even.  (That `x` is the exponent which leaves `prec + 1` digits is the specification's
+`exp10`, a definition compared with glibc and the exact reference on every case, not a theorem.) -/
+theorem exp_digits_correctly_rounded (m : Nat) (e : Int) (prec : Nat) (hm : m ≠ 0) :
+    let x := (expParts m e prec).2
+    let N := valueOf (expParts m e prec).1
+    let num := scaledNum m e ((prec : Int) - x)
+    let den := scaledDen e ((prec : Int) - x)
+    2 * (N * den) ≤ 2 * num + den ∧ 2 * num ≤ 2 * (N * den) + den ∧
+    ((2 * (N * den) = 2 * num + den ∨ 2 * num = 2 * (N * den) + den) → N % 2 = 0) := by
+  intro x N num den
+  have hN : N = roundDiv num den := by
+    show valueOf _ = _
+    rw [expParts_value m e prec hm, scaled_eq]
+  rw [hN]
+  exact roundDiv_nearest_even num den (scaledDen_pos _ _)
+
+/-- 0.125 = 1·2^-3 to two places is a tie: "0.12" (to even), 0.375 gives "0.38" -/
+example : fixedText 1 (-3) 2 false = [48, 46, 49, 50] ∧ fixedText 3 (-3) 2 false = [48, 46, 51, 56] := by
+  simp [fixedText, scaled, roundDiv, natDigits, digitChar]
 
 /-- non-vacuity: the shapes the conversions produce are well-formed (`f`, `e`, `g` notations) -/
 example : BodyWF (ascii "3.14") ∧ BodyWF (ascii "0.001000") ∧ BodyWF (ascii "1234567890123") ∧
